@@ -330,7 +330,6 @@ func mustObs(s *SW) *StorageObs {
 }
 
 func c04PayOnce(rc *RunCtx, s *SW, mod string) {
-	c := s.c
 	owner := []int{0, 1, 4}[rc.Intn(3)]
 	f := gen.NewFile(randBytes(rc.Rng, int64(1+rc.Intn(3000))), 1024)
 	size := []int64{-1, 1, 1_000_000, 5_000_000_000, 999}[rc.Intn(5)]
@@ -340,6 +339,15 @@ func c04PayOnce(rc *RunCtx, s *SW, mod string) {
 	maxp := int64(1 + rc.Intn(4))
 	// blocks ahead: below a day (14399), exactly a day (14400), above, far future
 	ahead := []int64{1, 14_399, 14_400, 14_401, 100_000, 5_256_000, 50_000_000}[rc.Intn(7)]
+	if c04PayOncePost(rc, s, mod, owner, f, size, maxp, ahead) && rc.Chance(0.35) {
+		// the same merkle again in the same block (same key, same expiry), declared bigger: a new purchase, charged in full
+		c04PayOncePost(rc, s, mod, owner, f, size*int64(2+rc.Intn(1000)), int64(1+rc.Intn(4)), ahead)
+		rc.Count("payonce_same_block_reposts", 1)
+	}
+}
+
+func c04PayOncePost(rc *RunCtx, s *SW, mod string, owner int, f *gen.File, size, maxp, ahead int64) bool {
+	c := s.c
 	expires := c.Height + ahead
 	k := c.App.StorageKeeper
 	ctx := c.Ctx()
@@ -375,7 +383,7 @@ func c04PayOnce(rc *RunCtx, s *SW, mod string) {
 			rc.Fail("C04/failed-post-moved-funds", "failed pay-once MsgPostFile (%s) moved balances: %s", clip(r.Log), df)
 		}
 		rc.NonTrivial("payonce/" + dcl + "/fail")
-		return
+		return false
 	}
 	if days <= 0 {
 		rc.Fail("C04/payonce-under-a-day-accepted", "pay-once post for %d blocks (< 1 day) succeeded", ahead)
@@ -384,7 +392,7 @@ func c04PayOnce(rc *RunCtx, s *SW, mod string) {
 	D := df.Of(payer, "ujkl").Neg()
 	if panicked || !known {
 		rc.Fail("C04/post-succeeded-without-price", "pay-once post succeeded although the price function panics on the pre-state")
-		return
+		return true
 	}
 	if !D.Equal(price) {
 		rc.Fail("C04/debit-not-price", "pay-once post debited %s, chain price %s", D, price)
@@ -421,6 +429,7 @@ func c04PayOnce(rc *RunCtx, s *SW, mod string) {
 		}
 	}
 	rc.NonTrivial("payonce/" + dcl + "/ok")
+	return true
 }
 
 func failLog(r chain.TxResult) string {
